@@ -3,6 +3,7 @@ package c12
 import (
 	"errors"
 	"fmt"
+	"net"
 	"sort"
 	"strings"
 	"sync"
@@ -111,6 +112,12 @@ func TestProp(t *testing.T) {
 		"Oracle: the set of permitted outcomes computed from the assignment alone (the library randomises the KDC order); attempts observed by the endpoints are bounded. distinct = assignment; non-trivial = all")
 	r.Assume("outcome sets: success permitted iff some endpoint answers on a permitted transport; KRB-ERROR 6 permitted iff some endpoint answers it on a permitted transport; plain failure permitted iff nothing answers and nothing sends a KRB-ERROR, or a UDP endpoint said response-too-big and nothing answers correctly on TCP; a surfaced KRB-ERROR is the KRBError itself or a client error of root cause KDC_Error naming the code")
 	r.Note("'silent' costs the library's hard-coded 5 s per attempt: cases run concurrently; real time, no virtual clock")
+	r.Note("widened families, judged by the same outcome sets (seeded samples, no silent sides): kdc-name = KDCs configured by host name, the name having 1-3 loopback addresses (A and AAAA records from the package's own name server behind net.DefaultResolver) with the TCP service listening on some of them and the UDP service on all or some; " +
+		"dns-srv = no kdc lines, dns_lookup_kdc = true, the realm's _kerberos._udp / _kerberos._tcp SRV record sets name different hosts or ports per transport or exist for one transport only; " +
+		"reply-size = AS-REP / TGS-REP / KRB-ERROR padded to every boundary size and a sample of sizes up to 4096 bytes over UDP and up to 70 000 bytes over TCP")
+	r.Assume("a KDC configured by a host name answers over TCP if its service listens on at least one address of the name (connecting to a name tries its addresses in turn); whether a UDP service that answers on only some addresses of its name must be found is not determined by the statement: such cases are judged under both readings and counted as observe_udp_service_on_some_addresses_of_the_name_*")
+	r.Assume("a KDC located with DNS is configured for exactly the transports whose SRV record set names it, at the port given there; SRV priorities and weights are not judged")
+	r.Assume("a reply of up to 4096 bytes in one UDP datagram (MIT kdc_max_dgram_reply_size) is a correct answer; larger replies are only sent over TCP")
 
 	rnd := vh.NewRand("c12")
 	k := simkdc.New(time.Now, vh.NewRand("c12kdc").Bytes)
@@ -196,17 +203,75 @@ func TestProp(t *testing.T) {
 	}
 	r.Count("assignments_1kdc", int64(n1))
 
+	// the widened families (wide_test.go): KDCs behind host names with several addresses, KDCs published with DNS SRV records, replies of every size
+	dns, err := startDNS()
+	if err != nil {
+		r.Inconclusive("cannot start the test's name server: " + err.Error())
+		return
+	}
+	defer dns.stop()
+	env := &wideEnv{dns: dns, k: k, kw: newSizedKDC(k), kt: kt}
+	if l, err := net.Listen("tcp6", "[::1]:0"); err == nil {
+		l.Close()
+		env.v6 = true
+	} else {
+		r.Note("no IPv6 loopback address: host names with A and AAAA records are not generated")
+	}
+	if why := dnsSelfTest(dns); why != "" {
+		r.Inconclusive("the test's name server does not serve this process's resolver: " + why)
+		return
+	}
+	wide := wideCases(env.v6)
+
 	sem := make(chan struct{}, 400)
 	var wg sync.WaitGroup
 	type candidate struct {
-		a    assignment
-		ck   string
-		fp   string
-		what string
-		d    map[string]any
+		ck    string
+		fp    string
+		what  string
+		d     map[string]any
+		rerun func(viol func(fp, what string, d map[string]any))
 	}
 	var cands []candidate
 	var candMu sync.Mutex
+	// report files a verdict: the timing-sensitive ones are confirmed in isolation first
+	report := func(ck string, rerun func(viol func(fp, what string, d map[string]any))) func(fp, what string, d map[string]any) {
+		return func(fp, what string, d map[string]any) {
+			if timingSensitive(fp) {
+				// the outcome depends on every endpoint answering within the library's 5 s: confirm it without the other 399 cases
+				candMu.Lock()
+				cands = append(cands, candidate{ck, fp, what, d, rerun})
+				candMu.Unlock()
+				return
+			}
+			r.Violation(fp, what, d)
+		}
+	}
+	// the dns-srv cases share the realm's two SRV names: they run one after the other, before the machine is loaded
+	for _, c := range wide {
+		ck := c.String()
+		if c.fam != famSRV || !r.Mine(ck) {
+			continue
+		}
+		c := c
+		runWide(r, env, c, ck, false, report(ck, func(viol func(fp, what string, d map[string]any)) { runWide(r, env, c, ck, true, viol) }))
+	}
+	wsem := make(chan struct{}, 48)
+	for _, c := range wide {
+		ck := c.String()
+		if c.fam == famSRV || !r.Mine(ck) {
+			continue
+		}
+		wg.Add(1)
+		wsem <- struct{}{}
+		go func(c wCase, ck string) {
+			defer wg.Done()
+			defer func() { <-wsem }()
+			runWide(r, env, c, ck, false, report(ck, func(viol func(fp, what string, d map[string]any)) { runWide(r, env, c, ck, true, viol) }))
+		}(c, ck)
+	}
+	// none of these waits for a silent endpoint: they are done in a moment, and the name lookups are not competing with the big batch
+	wg.Wait()
 	for _, a := range as {
 		ck := a.String()
 		if !r.Mine(ck) {
@@ -217,16 +282,7 @@ func TestProp(t *testing.T) {
 		go func(a assignment, ck string) {
 			defer wg.Done()
 			defer func() { <-sem }()
-			runCase(r, k, kt, a, ck, false, func(fp, what string, d map[string]any) {
-				if timingSensitive(fp) {
-					// the outcome depends on every endpoint answering within the library's 5 s: confirm it without the other 399 cases
-					candMu.Lock()
-					cands = append(cands, candidate{a, ck, fp, what, d})
-					candMu.Unlock()
-					return
-				}
-				r.Violation(fp, what, d)
-			})
+			runCase(r, k, kt, a, ck, false, report(ck, func(viol func(fp, what string, d map[string]any)) { runCase(r, k, kt, a, ck, true, viol) }))
 		}(a, ck)
 	}
 	wg.Wait()
@@ -243,7 +299,7 @@ func TestProp(t *testing.T) {
 		again, tries := 0, 0
 		for i := 0; i < 12 && again == 0; i++ {
 			tries++
-			runCase(r, k, kt, c.a, c.ck, true, func(fp, what string, d map[string]any) {
+			c.rerun(func(fp, what string, d map[string]any) {
 				if fp == c.fp {
 					again++
 				}
@@ -255,7 +311,11 @@ func TestProp(t *testing.T) {
 			confirmed++
 		} else {
 			r.Inc("failure_under_load_not_reproduced_in_isolation")
-			r.Note(fmt.Sprintf("%s: '%s' was observed once with 400 cases in flight and in none of 12 re-runs alone: counted as a timing artefact of the harness, not judged", c.ck, c.fp))
+			res := fmt.Sprint(c.d["result"])
+			if len(res) > 300 {
+				res = res[:300] + "..."
+			}
+			r.Note(fmt.Sprintf("%s: '%s' was observed once with 400 cases in flight and in none of 12 re-runs alone: counted as a timing artefact of the harness, not judged (the result was: %s)", c.ck, c.fp, res))
 		}
 	}
 	r.Exhaustive("all assignments for 1 KDC x 3 preference limits")
@@ -265,6 +325,53 @@ func TestProp(t *testing.T) {
 	r.Require("outcome_krb_error_24_after_preauth", 40)
 	r.Require("tcp_first_udp_fallback_success", 5)
 	r.Require("udp_toobig_tcp_success", 5)
+	// the widened families
+	r.Count("name_server_queries", dns.queries.Load())
+	r.Require("kdc_name_outcome_success", 60)
+	r.Require("kdc_name_outcome_failure", 15)
+	r.Require("kdc_name_outcome_krb_error_6", 10)
+	r.Require("kdc_name_success_needs_tcp_beyond_first_listed_address", 5)
+	r.Require("dns_srv_outcome_success", 30)
+	r.Require("dns_srv_outcome_failure", 10)
+	r.Require("dns_srv_outcome_krb_error_6", 5)
+	r.Require("dns_srv_success_record_sets_differ", 15)
+	r.Require("dns_srv_one_transport_unpublished_success", 5)
+	r.Require("reply_size_outcome_success", 80)
+	r.Require("reply_size_outcome_krb_error_6", 30)
+	r.Require("reply_size_udp_upto_1024", 10)
+	r.Require("reply_size_udp_1025_1500", 10)
+	r.Require("reply_size_udp_1501_2048", 10)
+	r.Require("reply_size_udp_2049_3072", 10)
+	r.Require("reply_size_udp_3073_4096", 10)
+	r.Require("reply_size_udp_exactly_4096", 3)
+	r.Require("reply_size_tcp_over_4096", 10)
+	r.Require("ticket_compared_with_the_kdcs_reply", 10)
+}
+
+// dnsSelfTest checks that this process's resolver is served by the test's name server (else the name and SRV families would
+// test nothing): a name with two addresses and an SRV record set must come back as published.
+func dnsSelfTest(dns *dnsServer) string {
+	if err := dns.setAddrs("selftest.c12.test", []string{"127.0.0.7", "127.0.0.3"}); err != nil {
+		return err.Error()
+	}
+	ips, err := net.LookupHost("selftest.c12.test")
+	if err != nil {
+		return err.Error()
+	}
+	sort.Strings(ips)
+	if strings.Join(ips, ",") != "127.0.0.3,127.0.0.7" {
+		return fmt.Sprintf("selftest.c12.test resolved to %v", ips)
+	}
+	dns.setSRV("_kerberos._tcp.SELFTEST.C12.TEST", []srvRec{{prio: 1, weight: 2, port: 8888, target: "selftest.c12.test"}}, true)
+	defer dns.setSRV("_kerberos._tcp.SELFTEST.C12.TEST", nil, false)
+	_, recs, err := net.LookupSRV("kerberos", "tcp", "SELFTEST.C12.TEST")
+	if err != nil || len(recs) != 1 || recs[0].Port != 8888 || recs[0].Target != "selftest.c12.test." {
+		return fmt.Sprintf("SRV lookup: %v %v", recs, err)
+	}
+	if _, _, err := net.LookupSRV("kerberos", "udp", "SELFTEST.C12.TEST"); err == nil {
+		return "an SRV record set that is not published was found"
+	}
+	return ""
 }
 
 // runCase runs one assignment. quiet re-runs (confirmation of a timing-sensitive verdict in isolation) record nothing but the
@@ -295,15 +402,36 @@ func runCase(r0 *vh.Run, k *simkdc.KDC, kt *keytab.Keytab, a assignment, ck stri
 		r.Inconclusive("config: " + err.Error())
 		return
 	}
-	var opErr error
-	pnc, pv, pw := vh.Guard(func() {
-		if a.op == "login-wrong-password" {
+	opErr, _, pnc, pv, pw := execOp(a.op, cfg, a.limit, k, kt, ck, func(cl *client.Client) { cl.Config.Realms[0].KDC = cfg.Realms[0].KDC })
+	r.Eval(ck, true)
+	var att []string
+	var total int64
+	for i, e := range eps {
+		att = append(att, fmt.Sprintf("kdc%d: udp datagrams=%d tcp conns=%d answered=%d", i, e.UDPDatagrams.Load(), e.TCPConns.Load(), e.Answered.Load()))
+		total += e.UDPDatagrams.Load() + e.TCPConns.Load()
+	}
+	d := map[string]any{"case": ck, "assignment": a.String(), "result": fmt.Sprint(opErr), "attempts_observed": att}
+	okS, okK, okF, why := allowed(a, 0)
+	judge(r, verdictIn{a: a, okS: okS, okK: okK, okF: okF, why: why, opErr: opErr, pnc: pnc, pv: pv, pw: pw, total: total, msgs: 1}, ck, d, viol)
+}
+
+// execOp runs the operation of a case against the configuration cfg. For the TGS operation the login must succeed first: it
+// runs against an always-working endpoint, then swap points the client at the case's configuration and a service ticket is
+// asked for. The ticket of a successful TGS operation is returned.
+func execOp(op string, cfg *config.Config, limit int, k *simkdc.KDC, kt *keytab.Keytab, ck string, swap func(cl *client.Client)) (opErr error, tkt *messages.Ticket, pnc bool, pv, pw string) {
+	pnc, pv, pw = vh.Guard(func() {
+		switch op {
+		case "login-wrong-password":
 			cl := client.NewWithPassword("pwuser", realm, "not the right password", cfg, client.DisablePAFXFAST(true))
 			defer cl.Destroy()
 			opErr = cl.Login()
 			return
-		}
-		if a.op == "login" {
+		case "login-password":
+			cl := client.NewWithPassword("pwuser", realm, "the right password", cfg, client.DisablePAFXFAST(true))
+			defer cl.Destroy()
+			opErr = cl.Login()
+			return
+		case "login":
 			cl := client.NewWithKeytab("ktuser", realm, kt, cfg, client.DisablePAFXFAST(true))
 			defer cl.Destroy()
 			opErr = cl.Login()
@@ -316,35 +444,56 @@ func runCase(r0 *vh.Run, k *simkdc.KDC, kt *keytab.Keytab, a assignment, ck stri
 			return
 		}
 		defer good.Close()
-		cfg2, _ := config.NewFromString(strings.Replace(sb.String(), " "+realm+" = {\n", " "+realm+" = {\n  kdc = "+good.Addr()+"\n", 1))
-		cfg2.Realms[0].KDC = cfg2.Realms[0].KDC[:1]
+		cfg2, err := config.NewFromString(fmt.Sprintf("[libdefaults]\n default_realm = %s\n dns_lookup_kdc = false\n dns_lookup_realm = false\n noaddresses = true\n default_tkt_enctypes = aes256-cts-hmac-sha1-96\n default_tgs_enctypes = aes256-cts-hmac-sha1-96\n udp_preference_limit = %d\n[realms]\n %s = {\n  kdc = %s\n }\n[domain_realm]\n .test.gokrb5 = %s\n", realm, limit, realm, good.Addr(), realm))
+		if err != nil {
+			opErr = fmt.Errorf("setup: %v", err)
+			return
+		}
 		cl := client.NewWithKeytab("ktuser", realm, kt, cfg2, client.DisablePAFXFAST(true))
 		defer cl.Destroy()
 		if err := cl.Login(); err != nil {
 			opErr = fmt.Errorf("setup: login through the healthy endpoint failed: %v", err)
 			return
 		}
-		cl.Config.Realms[0].KDC = cfg.Realms[0].KDC
-		_, _, opErr = cl.GetServiceTicket("HTTP/host.test.gokrb5")
+		swap(cl)
+		t, _, err := cl.GetServiceTicket("HTTP/host.test.gokrb5")
+		opErr = err
+		if err == nil {
+			tkt = &t
+		}
 	})
-	r.Eval(ck, true)
-	var att []string
-	var total int64
-	for i, e := range eps {
-		att = append(att, fmt.Sprintf("kdc%d: udp datagrams=%d tcp conns=%d answered=%d", i, e.UDPDatagrams.Load(), e.TCPConns.Load(), e.Answered.Load()))
-		total += e.UDPDatagrams.Load() + e.TCPConns.Load()
+	return
+}
+
+// verdictIn is what judge needs to know about a finished case.
+type verdictIn struct {
+	a             assignment // the (effective) assignment: modes per endpoint and transport, limit, operation
+	okS, okK, okF bool       // permitted outcomes
+	why           string
+	opErr         error
+	pnc           bool
+	pv, pw        string
+	total         int64  // connection attempts the endpoints observed
+	msgs          int    // messages the operation sends when all goes well
+	fam           string // "" for the basic enumeration, else the name of the widened family (suffix of fingerprints, prefix of counters)
+}
+
+// judge compares the outcome with the permitted set.
+func judge(r recorder, v verdictIn, ck string, d map[string]any, viol func(fp, what string, d map[string]any)) (outcome string, held bool) {
+	a, opErr, okS, okK, okF, why := v.a, v.opErr, v.okS, v.okK, v.okF, v.why
+	sfx, pfx := "", ""
+	if v.fam != "" {
+		sfx, pfx = "|"+v.fam, strings.ReplaceAll(v.fam, "-", "_")+"_"
 	}
-	d := map[string]any{"case": ck, "assignment": a.String(), "result": fmt.Sprint(opErr), "attempts_observed": att}
-	if pnc {
-		viol(fmt.Sprintf("C12|panic|%s|%s", pw, vh.PanicClass(pv)), "client panicked: "+pv, d)
-		return
+	if v.pnc {
+		viol(fmt.Sprintf("C12|panic|%s|%s", v.pw, vh.PanicClass(v.pv))+sfx, "client panicked: "+v.pv, d)
+		return "panic", false
 	}
 	if opErr != nil && strings.HasPrefix(opErr.Error(), "setup:") {
 		r.Inconclusive(ck + ": " + opErr.Error())
-		return
+		return "setup", false
 	}
-	okS, okK, okF, why := allowed(a, 0)
-	outcome := "failure"
+	outcome = "failure"
 	switch {
 	case opErr == nil:
 		outcome = "success"
@@ -355,25 +504,25 @@ func runCase(r0 *vh.Run, k *simkdc.KDC, kt *keytab.Keytab, a assignment, ck stri
 		// where a correct login would succeed, this one must end with the KDC's PREAUTH_FAILED
 		switch {
 		case opErr == nil:
-			viol("C12|wrong-password-login-succeeded", "a login with a wrong password succeeded", d)
-			return
+			viol("C12|wrong-password-login-succeeded"+sfx, "a login with a wrong password succeeded", d)
+			return outcome, false
 		case carries(opErr, 24):
 			if !okS {
-				viol("C12|krb-error-not-sent|"+a.op, "KRB-ERROR 24 was surfaced although no endpoint answers on a permitted transport", d)
-				return
+				viol("C12|krb-error-not-sent|"+a.op+sfx, "KRB-ERROR 24 was surfaced although no endpoint answers on a permitted transport", d)
+				return outcome, false
 			}
-			r.Inc("outcome_krb_error_24_after_preauth")
-			return
+			r.Inc(pfx + "outcome_krb_error_24_after_preauth")
+			return "krb_error_24", true
 		case outcome == "krb_error_6":
 			// as for the other operations
 		default:
 			if !okF && okS && !okK {
-				viol("C12|krb-error-not-surfaced|after-pre-authentication", "every answering endpoint says PREAUTH_REQUIRED and then PREAUTH_FAILED, but the call failed with an error that is not that KDC error: "+opErr.Error(), d)
-				return
+				viol("C12|krb-error-not-surfaced|after-pre-authentication"+sfx, "every answering endpoint says PREAUTH_REQUIRED and then PREAUTH_FAILED, but the call failed with an error that is not that KDC error: "+opErr.Error(), d)
+				return outcome, false
 			}
 		}
 	}
-	r.Inc("outcome_" + outcome)
+	r.Inc(pfx + "outcome_" + outcome)
 	d["permitted"] = fmt.Sprintf("success=%v krb-error-6=%v failure=%v (%s)", okS, okK, okF, why)
 	first := "udp-first"
 	if a.limit == 1 {
@@ -384,33 +533,37 @@ func runCase(r0 *vh.Run, k *simkdc.KDC, kt *keytab.Keytab, a assignment, ck stri
 	switch outcome {
 	case "success":
 		if !okS {
-			viol("C12|success-without-working-endpoint|"+first, "the exchange succeeded although no endpoint answers correctly on a permitted transport", d)
-			return
+			viol("C12|success-without-working-endpoint|"+first+sfx, "the exchange succeeded although no endpoint answers correctly on a permitted transport", d)
+			return outcome, false
 		}
 	case "krb_error_6":
 		if !okK {
-			viol("C12|krb-error-not-sent|"+first, "a KRB-ERROR was surfaced that no endpoint sent", d)
-			return
+			viol("C12|krb-error-not-sent|"+first+sfx, "a KRB-ERROR was surfaced that no endpoint sent", d)
+			return outcome, false
 		}
 	default:
 		if !okF && !okS {
-			viol("C12|krb-error-not-surfaced|"+first, "no endpoint answers correctly and one sends KRB-ERROR 6, but the call failed with an error that is not that KDC error: "+opErr.Error(), d)
-			return
+			viol("C12|krb-error-not-surfaced|"+first+sfx, "no endpoint answers correctly and one sends KRB-ERROR 6, but the call failed with an error that is not that KDC error: "+opErr.Error(), d)
+			return outcome, false
 		}
 		if !okF {
 			cls := "other"
 			if carries(opErr, 52) {
 				cls = "response-too-big-surfaced"
 			}
-			viol("C12|failed-although-endpoint-works|"+first+"|"+cls, "the exchange failed although an endpoint answers correctly on a permitted transport: "+opErr.Error(), d)
-			return
+			viol("C12|failed-although-endpoint-works|"+first+"|"+cls+sfx, "the exchange failed although an endpoint answers correctly on a permitted transport: "+opErr.Error(), d)
+			return outcome, false
 		}
 	}
-	// bounded attempts: at most 2 x transports x KDCs per message (one message here)
-	bound := int64(2 * 2 * len(a.eps))
-	if total > bound {
-		viol("C12|attempts-unbounded", fmt.Sprintf("%d connection attempts observed for one message, bound %d", total, bound), d)
-		return
+	// bounded attempts: at most 2 x transports x KDCs per message
+	bound := int64(2 * 2 * len(a.eps) * v.msgs)
+	if v.total > bound {
+		viol("C12|attempts-unbounded"+sfx, fmt.Sprintf("%d connection attempts observed for %d message(s), bound %d", v.total, v.msgs, bound), d)
+		return outcome, false
+	}
+	if v.fam != "" {
+		r.SampleKind(v.fam+"-"+outcome+"-"+first, 1, d)
+		return outcome, true
 	}
 	// coverage counters for the interesting paths
 	if outcome == "success" && a.limit == 10 {
@@ -436,6 +589,7 @@ func runCase(r0 *vh.Run, k *simkdc.KDC, kt *keytab.Keytab, a assignment, ck stri
 		}
 	}
 	r.SampleKind(outcome+"-"+first, 1, d)
+	return outcome, true
 }
 
 // recorder forwards to the run unless the case is a quiet re-run.
